@@ -213,6 +213,43 @@ def run(ctx):
                 rep.add_failure(name + "/oracle", line, out, want,
                                 "implementation output differs from the canonical-form specification (Python oracle)")
         rep.streams.setdefault(name, {})["oracle_checked"] = len(cases)
+    if not ctx.get("replay"):
+        # ToClvm / FromClvm of the primitive integer types (the glue around encode_number / decode_number: which sign
+        # is passed, which width is decoded).  Implementation: ints.prim / ints.primsize through the real Allocator;
+        # model: the proved encode_number (ints.enc) and decode_number (ints.decn) of the same width and sign;
+        # oracle: the canonical form in Python.
+        pc = []
+        for L in (1, 2, 4, 8, 16):
+            for signed in (0, 1):
+                for v in width_values(L, signed, rng.fork("prim%d%d" % (L, signed)), tier):
+                    pc.append((L, signed, v))
+        pl = ["ints.prim %d %d %s" % (L, sg, v.to_bytes(L, "big", signed=bool(sg)).hex()) for (L, sg, v) in pc]
+        for sg in (0, 1):
+            for v in width_values(8, sg, rng.fork("size%d" % sg), tier):
+                pc.append((8, sg, v))
+                pl.append("ints.primsize %d %s" % (sg, v.to_bytes(8, "big", signed=bool(sg)).hex()))
+        pi = C.run_lines(C.VH(UNIT), pl)
+        if ctx["have_model"]:
+            me = C.run_lines(C.VRUN(UNIT), ["ints.enc %d %d %s" % (L, sg, v.to_bytes(L, "big", signed=bool(sg)).hex()) for (L, sg, v) in pc])
+            md = C.run_lines(C.VRUN(UNIT), ["ints.decn %d %d %s" % (L, sg, me_i) for (L, sg, v), me_i in zip(pc, me)])
+        else:
+            me = md = [None] * len(pc)
+        st = {"cases": len(pl), "disagreements": 0}
+        for (L, sg, v), line, o, e, d in zip(pc, pl, pi, me, md):
+            rep.evaluations += 1
+            be = v.to_bytes(L, "big", signed=bool(sg)).hex()
+            want = "%s %s" % (hexo(canon(v)), be)
+            rep.nontrivial.add(("ints.prim", L, sg, len(canon(v)), v < 0))
+            if o != want:
+                rep.add_failure("ints.prim/oracle", line, o, want,
+                                "ToClvm/FromClvm of a primitive integer is not the canonical form / does not round-trip (Python oracle)")
+            if e is not None:
+                mwant = "%s %s" % (e, d[2:] if d.startswith("S:") else "ERR")
+                if o != mwant:
+                    st["disagreements"] += 1
+                    rep.add_failure("ints.prim", line, o, mwant,
+                                    "ToClvm/FromClvm of a primitive integer differs from the proved encode_number / decode_number of its width and sign")
+        rep.streams["ints.prim"] = st
     if tier == "thorough" and not ctx.get("replay"):
         # exhaustive below 2^32 on the implementation (independent minimal encoding inside the harness)
         step = (1 << 32) // 16
